@@ -9,7 +9,7 @@ NSRC = os.path.join(HERE, "nested.cpp")
 
 
 def build():
-    return vlib.compile_cxx(SRC, "c06", std="c++17", opt="-O1", san="asan-only")
+    return vlib.compile_cxx(SRC, "c06", std="c++17", opt="-O1", san="asan-only", extra_srcs=[os.path.join(HERE, "other_tu.cpp")], flags=["-I" + HERE])
 
 
 def build_nested():
@@ -18,7 +18,7 @@ def build_nested():
 
 def plan(tier):
     if tier == "quick":
-        return [["--objects", "2", "--inst", "2any"], ["--objects", "3", "--one-value", "--inst", "3any-1v"]]
+        return [["--objects", "2", "--inst", "2any"], ["--objects", "3", "--one-value", "--types", "base", "--inst", "3any-1v-base"]]
     return [["--objects", "2", "--inst", "2any"], ["--objects", "3", "--inst", "3any"]]
 
 
@@ -27,21 +27,21 @@ def run(ctx):
     dl = str(int(max(60, ctx.time_left() - 30)))
     nest = ["--nest", "3" if ctx.tier == "quick" else "4"]
     vlib.parallel([(lambda a=a: ctx.run_harness(b, a + ["--deadline", dl], tag="c06")) for a in plan(ctx.tier)] +
-                  [lambda: ctx.run_harness(bn, nest + ["--deadline", dl], tag="c06n")])
+                  [lambda: ctx.run_harness(bn, nest + ["--deadline", dl], tag="c06n"), lambda: ctx.run_harness(b, ["--tu-matrix"], tag="c06")])
     ctx.stats["evaluations"] = ctx.stats.get("transitions", 0)
     ctx.stats["distinct_nontrivial"] = ctx.stats.get("states", 0)
     ctx.rule = ("BFS over operation histories of a world of 2-3 xtl::any objects (state = history replayed on a fresh world, deduplicated by the observed (type,value,moved-from) of every object). "
-                "Alphabet: construct/assign from lvalue and rvalue of 8 payload types (8-byte and 16-byte in-place, 8-byte throwing-move heap, 24-byte heap, throwing-copy heap and in-place, alignas(16), int) x values, "
+                "Alphabet: construct/assign from lvalue and rvalue of 11 payload types (8-byte and 16-byte in-place, 8-byte throwing-move heap, 24-byte heap, throwing-copy heap and in-place, alignas(16), noexcept-copy/throwing-move, int, and a heap-stored and an in-place type with CLASS-SPECIFIC operator new/delete whose blocks the registry tracks: creation and release must use matching allocation functions) x values, "
                 "copy/move construct, copy/move assign incl. self copy-assign, member swap and std::swap incl. self-swap, reset, clear, destroy/recreate, mutation through any_cast<T&>. "
                 "FAULTS: every operation is run unfaulted (which counts the K throw points it reaches in that state) and then once per k=1..K with the k-th copy/move throwing. "
                 "Oracle: value model with the strong guarantee for copy-assignment/assignment from a value, address-keyed lifetime registry (construct once, never used dead, destroyed once, nothing alive after teardown), "
                 "ASan/LSan; in every new state all cast forms x all 8 types + unrelated types. The tracked payloads are address-sensitive: the registry binds each object's heap cell to the address a constructor put it at, so bytes exchanged or relocated without move construction are reported. "
-                "NESTED part (nested.cpp): two any objects holding Small values or Node{any child} (heap-stored) / Handle{any* child} (in-place) trees up to nesting 3 (quick) / 4 (thorough); operations whose source lives inside the target's own content "
+                "TWO-TU part: the harness is linked from two translation units that each define an unnamed-namespace type `Local` (same name, different types, one stored in place and one on the heap); every (stored TU x cast-target TU x 7 cast/type() forms x 6 routes direct/copy/move/copy-assign/move-assign/swap x 2 values) must succeed exactly for the stored type. NESTED part (nested.cpp): two any objects holding Small values or Node{any child} (heap-stored) / Handle{any* child} (in-place) trees up to nesting 3 (quick) / 4 (thorough); operations whose source lives inside the target's own content "
                 "(a = move(Node(a).child), by copy, via construct+swap, over two levels), whose source lives inside the other object, and whose target lives inside an object's content (child = a_j, child.swap(a_j)); value-semantic tree model, deep-copy checks. distinct_nontrivial = distinct world states; faulted_transitions = executions with an injected throw")
     ctx.assumptions += [
         "moved-from any objects are only required to be queryable/assignable/destructible (content unspecified); self move-assignment is not in the alphabet",
         "payload types are harness types whose constructors report to the registry; std::any (libstdc++, C++17) is consulted as a second opinion on fault-free prefixes only",
-        "quick: 2 objects with 2 values and 3 objects with 1 value; thorough: 3 objects with 2 values, all to fixpoint unless a cap is reported",
+        "quick: 2 objects with 2 values over all 11 payload types and 3 objects with 1 value over the 9 payload types without class-specific allocation functions; thorough: 3 objects with 2 values over all types, all to fixpoint unless a cap is reported",
     ]
 
 
